@@ -43,6 +43,12 @@ def expected(i):
     for nm in ("feed", "biofuel"):
         d = i[nm]
         e[nm] = [F(d["per_year"]) / 12 * 4000000 / 10 ** 9 if m < d["dur"] else F(0) for m in range(N)]
+    for nu in ("fat", "protein"):
+        e["fish_" + nu] = [(F(f["pct"][m]) / 100 * F(f[nu + "_annual"]) / 1000 / 12 * coef) if f["add"] else F(0)
+                           for m in range(min(N, len(f["pct"])))]
+        for nm in ("feed", "biofuel"):
+            d = i[nm]
+            e[f"{nm}_{nu}"] = [F(d[nu]) / 12 / 1000 if m < d["dur"] else F(0) for m in range(N)]
     g = i["grass"]
     ny = N // 12
     e["grass"] = [F(g["ratios"][0 if m < 8 else min((m - 8) // 12 + 1, ny - 1)]) * F(g["baseline"]) * 4000 for m in range(N)] if ny >= 1 else []
@@ -89,7 +95,13 @@ BASELINE_KEYS = {"fish": ["FISH_DRY_CALORIC_ANNUAL"], "feed": ["FEED_KCALS"], "b
                  "grass": ["HUMAN_INEDIBLE_FEED_BASELINE_MONTHLY"], "scp": ["SCP_GLOBAL_PRODUCTION_FRACTION"],
                  "cs": ["CS_GLOBAL_PRODUCTION_FRACTION"], "stored": ["END_OF_MONTH_STOCKS"],
                  "crops": ["BASELINE_CROP_KCALS", "BASELINE_CROP_FAT", "BASELINE_CROP_PROTEIN"]}
-SERIES = ["fish", "feed", "biofuel", "grass", "scp", "cs", "built_area", "stored"]
+SERIES = ["fish", "feed", "biofuel", "grass", "scp", "cs", "built_area", "stored",
+          "fish_fat", "fish_protein", "feed_fat", "feed_protein", "biofuel_fat", "biofuel_protein",
+          "scp_fat", "scp_protein", "cs_fat", "cs_protein"]
+SCP_CONV = {"scp_fat": F(10 ** 9) / 5350 * F(9, 100) / 10 ** 6, "scp_protein": F(10 ** 9) / 5350 * F(65, 100) / 10 ** 6}
+BASELINE_KEYS.update({"fish_fat": ["FISH_FAT_TONS_ANNUAL"], "fish_protein": ["FISH_PROTEIN_TONS_ANNUAL"],
+                      "feed_fat": ["FEED_FAT"], "feed_protein": ["FEED_PROTEIN"], "biofuel_fat": ["BIOFUEL_FAT"],
+                      "biofuel_protein": ["BIOFUEL_PROTEIN"]})
 
 
 def scaled_case(case, name, factor):
@@ -129,6 +141,16 @@ def audit_case(case, failures, stats):
         fail("rejected-" + nm, f"{nm}: the implementation raised {err} on admissible inputs")
     admissible = {"feed": i["feed"]["dur"] <= N, "biofuel": i["biofuel"]["dur"] <= N, "grass": N % 12 == 0 and N >= 24,
                   "fish": len(i["fish"]["pct"]) >= N}
+    for nu in ("fat", "protein"):
+        for nm in ("fish", "feed", "biofuel"):
+            admissible[f"{nm}_{nu}"] = admissible[nm]
+    # SCP / CS fat and protein: conversion constant x the kcal series / zeros
+    for k, conv in SCP_CONV.items():
+        if "scp" in o:
+            e[k] = [F(x) * conv for x in o["scp"]]
+    for k in ("cs_fat", "cs_protein"):
+        if "cs" in o:
+            e[k] = [F(0)] * len(o["cs"])
     for nm in SERIES:
         if nm not in o:
             continue
@@ -185,7 +207,8 @@ def audit_case(case, failures, stats):
         if nm in o and any(x != 0 for x in o[nm][i[nm]["dur"]:]):
             fail("demand-after-shutoff-" + nm, f"{nm} demand non-zero after month {i[nm]['dur']}")
     # homogeneity
-    for nm in ("fish", "feed", "biofuel", "grass", "scp", "cs", "stored"):
+    for nm in ("fish", "feed", "biofuel", "grass", "scp", "cs", "stored", "fish_fat", "fish_protein", "feed_fat",
+               "feed_protein", "biofuel_fat", "biofuel_protein"):
         if nm not in o or not admissible.get(nm, True):
             continue
         for factor in (1 / 1024, 3.0):
